@@ -252,7 +252,10 @@ def h4(prog, ctx):
                 looped = "initialize(kf, %s) for %s" % (idx, sh9.describe())
         if looped:
             ctx.ok("H4", "key_file_append initialises the slot it adds", ini[0].where, looped + ": every slot from the old to the new capacity")
-        elif not bad and "alloc_length - 1" in idx:
+        elif not bad and ("alloc_length - 1" in idx or any(
+                k2 == "=" and r2 is not None and render(l2).endswith("->alloc_length") and render(r2) + " - 1" == idx and cfg.node_dominates(st2, ini[0])
+                and len([1 for l3, r3, st3 in k.assignments() if isinstance(l3, dict) and l3["name"] == render(r2)]) == 1
+                for l2, r2, st2, k2 in query.stores(k))):
             ctx.ok("H4", "key_file_append initialises the slot it adds", ini[0].where, "initialize(kf, %s) on every path from the realloc to success" % idx)
         elif not bad and idx.endswith("->length - 1"):
             ctx.inconclusive("H4", "key_file_append initialises the slot it adds", ini[0].where, "initialize(kf, %s): the last entry in use, which is the new slot only when the array was full" % idx)
@@ -270,11 +273,42 @@ def h4(prog, ctx):
                 n += 1
                 if c.j.get("callee") == "calloc":
                     ctx.ok("H4", "%s: econf_file object zero-initialised" % f.name, c.where, "calloc")
+                elif _all_fields_assigned(prog, f, c):
+                    ctx.ok("H4", "%s: econf_file object zero-initialised" % f.name, c.where,
+                           "malloc, and every member of the object is assigned before the function can succeed")
                 else:
                     ctx.fail("H4", "%s: econf_file object zero-initialised" % f.name, c.where,
                              "malloc'ed object: fields not assigned afterwards (groups, conf_dirs, root_prefix ...) are garbage for econf_freeFile",
                              key="malloc-object:%s" % f.name)
     ctx.floor("C20 econf_file allocation sites", n, 1)
+
+
+def _all_fields_assigned(prog, f, alloc):
+    """A malloc()ed econf_file whose every member gets a value of its own (one member-wise assignment each, or an assignment of a
+    whole record literal, which names or zeroes every member) in a block every successful return is dominated by."""
+    cfg = f.cfg
+    fields = [x["name"] for x in prog.record("econf_file")["fields"]]
+    up = alloc.up()
+    while up is not None and up.k in ("ImplicitCastExpr", "CStyleCastExpr", "ParenExpr"):
+        up = up.up()
+    var = None
+    if up is not None and up.k == "BinaryOperator" and up.j.get("op") == "=":
+        var = render(up.children[0])
+    elif up is not None and up.k == "DeclStmt":
+        var = next((d.get("name") for d in up.j.get("decls", []) if d.get("init", -1) >= 0), None)
+    if not var:
+        return False
+    succ = [r for r in f.returns() if query.returned_constant(r) in ("ECONF_SUCCESS", 0)]
+    if not succ:
+        return False
+    have = {}
+    for l2, r2, st2, k2 in query.stores(f):
+        m = l2.strip()
+        if k2 == "=" and m.k == "MemberExpr" and m.j.get("rec") == "econf_file" and r2 is not None and (
+                render(m.children[0]).strip("()*") == var.strip("()*") or (m.children[0].strip().k == "DeclRefExpr" and m.children[0].strip().j.get("name") == var)):
+            if all(cfg.dominates(cfg.block_of(st2), cfg.block_of(r)) for r in succ) and cfg.node_dominates(alloc, st2):
+                have[m.j.get("member")] = st2
+    return all(x in have for x in fields)
 
 
 def h4_capacity(prog, ctx):
@@ -310,6 +344,17 @@ def h4_capacity(prog, ctx):
             if rhs.const_value() == 0:
                 ctx.ok("H4", inst, st.where, "no slot at all")
                 continue
+            # the capacity counted up by one through a local: `n = kf->alloc_length + 1; kf->alloc_length = n; .. initialize(kf, n - 1)`
+            r8 = rhs.strip()
+            if r8.k == "DeclRefExpr" and r8.j.get("dk") == "local":
+                sep8 = "->" if lhs.strip().j.get("arrow") else "."
+                d8 = [r2 for l2, r2, st2 in f.assignments() if isinstance(l2, dict) and l2["name"] == r8.j["name"]]
+                if len(d8) == 1 and d8[0] is not None and render(d8[0]).replace(" ", "") == "%s%salloc_length+1" % (obj, sep8):
+                    good8 = [c for c in inits if render(c.call_args()[1]).replace(" ", "") in ("%s%salloc_length-1" % (obj, sep8), "%s-1" % r8.j["name"])
+                             and cfg.node_dominates(st, c)]
+                    if good8:
+                        ctx.ok("H4", inst, st.where, "the capacity grows by one (%s) and the slot added is passed to initialize()" % render(d8[0]))
+                        continue
             # the value stored as length by the same function
             lens = [render(r2) for l2, r2, st2, k2 in query.stores(f) if k2 == "=" and r2 is not None and l2.strip().k == "MemberExpr"
                     and l2.strip().j.get("member") == "length" and render(l2.strip().children[0]) == obj]
@@ -330,8 +375,8 @@ def h4_capacity(prog, ctx):
                 if lp is None:
                     continue
                 sh = _loops.index_shape(lp)
-                if sh.ok and sh.step > 0 and sh.cmp == "<" and render(c.call_args()[1]) == sh.var and (
-                        sh.bound == render(rhs) or _loops.same_count(lp, sh.bound, "%s%salloc_length" % (obj, sep))
+                if sh.ok and sh.step > 0 and (sh.cmp == "<" or (sh.cmp == "!=" and sh.step == 1 and str(sh.start) == "0")) and render(c.call_args()[1]) == sh.var and (
+                        sh.bound == render(rhs) or _loops.same_count(lp, sh.bound, "%s%salloc_length" % (obj, sep)) or sh.bound.replace("(", "").replace(")", "") == ("%s%salloc_length" % (obj, sep)).replace("(", "").replace(")", "")
                         or (getattr(sh, "bound_node", None) is not None and sh.bound_node.const_value() is not None and sh.bound_node.const_value() == rhs.const_value())):
                     covered = True
                 # the bound as a plain constant expression
